@@ -44,6 +44,9 @@ class signedinteger(generic):
     pass
 
 
+# (floating / integer / unsignedinteger are defined further down, next to the mask helpers)
+
+
 class dtype:
     """np.dtype: scalar (name, byteorder) or structured (list of fields)."""
 
@@ -138,8 +141,16 @@ class StructDtype(dtype):
 
 
 def issubdtype(dt, kind):
+    if not isinstance(dt, SDtype):
+        raise StubGap('issubdtype of a non-scalar dtype')
     if kind is signedinteger:
-        return isinstance(dt, SDtype) and dt.name in ('int8', 'int16', 'int32', 'int64')
+        return dt.name in ('int8', 'int16', 'int32', 'int64')
+    if kind is floating:
+        return dt.name.startswith('float')
+    if kind is integer:
+        return dt.name.startswith(('int', 'uint'))
+    if kind is unsignedinteger:
+        return dt.name.startswith('uint')
     raise StubGap('issubdtype kind')
 
 
@@ -362,6 +373,40 @@ class Elem:
 
 def asarray(x, *a, **k):
     return x
+
+
+class Mask:
+    """Boolean mask derived from an array (np.isfinite / isnan / comparisons): content abstract."""
+
+    def __init__(self, of):
+        self.of = of
+
+    def __invert__(self):
+        return Mask(self.of)
+
+    def any(self):
+        raise StubGap('truth value of a data-dependent mask')
+
+    all = any
+
+
+def isfinite(x):
+    return Mask(x)
+
+
+isnan = isinf = isfinite
+
+
+class floating(generic):
+    pass
+
+
+class integer(generic):
+    pass
+
+
+class unsignedinteger(generic):
+    pass
 
 
 # scalar types as attributes (np.float64 ...)
